@@ -29,9 +29,12 @@ def run(cx, chk):
     chk.rule("C06.R3", "resize shape: early return iff cap == self.cap; loop `len > cap` -> remove_lru + count; self.cap := cap; count returned")
     chk.rule("C06.R4", "put of a resident key never evicts")
     chk.rule("C06.R5", "a clone has the recency order of the original: RawLRU::clone walks the source least-recent-first and re-inserts with put (engine of C16.R2)")
+    chk.rule("C06.R6", "the order survives a panicking eviction callback: at every callback site of RawLRU each node is linked iff indexed (a node left linked but unindexed sits at the LRU end for ever and is taken for the victim)")
     from . import c16
     from .lib.report import Relabel
     for cfg, F in cx.cfgs():
+        chk.floor("C06.R6", "callback site visits in %s" % cfg, ntrun.callback_consistency(cx, chk, cfg, "C06.R6", only=lambda g: (F.impl_of(g) or {}).get("self_head") == RAW,
+                  why="if it unwinds, peek_lru / remove_lru / the next eviction see a node the index does not know"), 10)
         fcl = [F.fns[i] for im in F.doc["impls"] if (im["trait"] or "").endswith("clone::Clone") and im["self_head"] == RAW for i in im["items"] if i in F.fns and F.fns[i]["name"] == "clone"]
         if len(fcl) != 1:
             raise AnalysisError("C06.R5: RawLRU::clone not found in %s" % cfg)
